@@ -575,29 +575,41 @@ Lemma fullrt_ctor_panics :
 Proof. vm_compute. tauto. Qed.
 
 (* ---- the ResetCids start handshake ----------------------------------------------------------------------------- *)
-Definition rk_stuck (s : rk) : Prop := rk_c s = RkLeft /\ (rk_w s = RwHandling \/ rk_w s = RwAnswering).
+(* while the worker handles or answers opStart the caller is listening, and an exited worker was asked to *)
+Definition rk_inv (s : rk) : Prop :=
+  ((rk_w s = RwHandling \/ rk_w s = RwAnswering) -> rk_c s = RkSent) /\ (rk_w s = RwExited -> rk_close_req s = true).
 
-Lemma rk_stuck_step s e s' : rk_stuck s -> rk_step s e = Some s' -> rk_stuck s' /\ rk_close_ret s' = rk_close_ret s.
+Lemma rk_inv_step s e s' : rk_inv s -> rk_step s e = Some s' -> rk_inv s'.
 Proof.
-  intros [C W] H. unfold rk_stuck. destruct e; simpl in H; rewrite ?C in H;
-    destruct W as [W|W]; rewrite ?W in H; try discriminate; injection H as <-; simpl; auto.
+  intros [A B] H. unfold rk_inv. destruct e; simpl in H.
+  - destruct (rk_c s); try discriminate. destruct (rk_w s); try discriminate. injection H as <-. simpl. split; [reflexivity|discriminate].
+  - destruct (rk_w s) eqn:W; try discriminate. injection H as <-. simpl. split; [intros _; apply A; left; reflexivity|discriminate].
+  - destruct (rk_c s); try discriminate. destruct (rk_w s); try discriminate. injection H as <-. simpl. split; [intros [X|X]; discriminate|discriminate].
+  - destruct (rk_c s) eqn:C; try discriminate. injection H as <-. simpl. split; [|exact B].
+    intro X. specialize (A X). discriminate.
+  - injection H as <-. simpl. split; [exact A|reflexivity].
+  - destruct (rk_w s) eqn:W; try discriminate. destruct (rk_close_req s); [|discriminate]. injection H as <-. simpl. split; [intros [X|X]; discriminate|reflexivity].
+  - destruct (rk_w s) eqn:W; try discriminate. injection H as <-. simpl. split; [intros [X|X]; discriminate|exact B].
 Qed.
 
-Lemma rk_stuck_run evs : forall s s', rk_stuck s -> rk_run s evs = Some s' -> rk_close_ret s' = rk_close_ret s.
+Lemma rk_inv_run evs : forall s s', rk_inv s -> rk_run s evs = Some s' -> rk_inv s'.
 Proof.
-  induction evs as [|e evs IH]; intros s s' K H; simpl in H; [injection H as <-; reflexivity|].
-  destruct (rk_step s e) as [s1|] eqn:E; [|discriminate]. destruct (rk_stuck_step s e s1 K E) as [K1 R]. rewrite <- R. eapply IH; eauto.
+  induction evs as [|e evs IH]; intros s s' I H; simpl in H; [injection H as <-; exact I|].
+  destruct (rk_step s e) as [s1|] eqn:E; [|discriminate]. eapply IH; [eapply rk_inv_step; eauto|exact H].
 Qed.
 
-(* once the caller has left on its cancelled context, Close never returns, whatever happens next *)
-Theorem rk_abandoned_never_closes :
-  exists s, rk_run rk0 [RkSend; RkCancel] = Some s /\ forall evs s', rk_run s evs = Some s' -> rk_close_ret s' = false.
+(* from every reachable state of the handshake Close can still be brought to return: the worker is never wedged *)
+Theorem rk_close_can_return evs s :
+  rk_run rk0 evs = Some s -> exists evs' s', rk_run s evs' = Some s' /\ rk_close_ret s' = true.
 Proof.
-  exists {| rk_c := RkLeft; rk_w := RwHandling; rk_close_req := false; rk_close_ret := false |}.
-  split; [reflexivity|]. intros evs s' H.
-  assert (K: rk_stuck {| rk_c := RkLeft; rk_w := RwHandling; rk_close_req := false; rk_close_ret := false |})
-    by (split; [reflexivity|left; reflexivity]).
-  rewrite (rk_stuck_run evs _ s' K H). reflexivity.
+  intro H. assert (I: rk_inv rk0) by (split; [intros [X|X]; discriminate|discriminate]).
+  destruct (rk_inv_run evs rk0 s I H) as [A B]. destruct (rk_w s) eqn:W.
+  - exists [RkCloseCall; RkWorkerExit; RkCloseRet]. eexists. simpl. rewrite W. simpl. split; reflexivity.
+  - pose proof (A (or_introl eq_refl)) as C. exists [RkPrepared; RkDeliver; RkCloseCall; RkWorkerExit; RkCloseRet]. eexists.
+    simpl. rewrite W. simpl. rewrite C. simpl. split; reflexivity.
+  - pose proof (A (or_intror eq_refl)) as C. exists [RkDeliver; RkCloseCall; RkWorkerExit; RkCloseRet]. eexists.
+    simpl. rewrite W, C. simpl. split; reflexivity.
+  - exists [RkCloseRet]. eexists. simpl. rewrite W. split; reflexivity.
 Qed.
 
 (* ---- the statements of Props/C14.v ---------------------------------------------------------------------------- *)
